@@ -279,6 +279,7 @@ def run_tlc(module, cfg, *, workers="auto", dump=False, timeout=600, java_props=
         if heap:
             cmd.append("-Xmx" + heap)
         cmd.append("-Xss64m")
+        cmd.append("-Djava.io.tmpdir=" + tmp)   # TLC's own tlc-<n> scratch directory goes away with ours
         for p in java_props:
             cmd.append("-D" + p)
         cmd += ["-cp", "/opt/veriftools/tla/tla2tools.jar:/opt/veriftools/tla/CommunityModules-deps.jar",
@@ -344,9 +345,13 @@ def run_tlc(module, cfg, *, workers="auto", dump=False, timeout=600, java_props=
 
 
 def sany(module, spec_dir=SPEC_DIR):
-    p = subprocess.run(["java", "-cp", "/opt/veriftools/tla/tla2tools.jar:/opt/veriftools/tla/CommunityModules-deps.jar",
-                        "tla2sany.SANY", module + ".tla"], cwd=spec_dir, stdout=subprocess.PIPE,
-                       stderr=subprocess.STDOUT, text=True, timeout=120)
+    jtmp = tempfile.mkdtemp(prefix="vsany_")
+    try:
+        p = subprocess.run(["java", "-Djava.io.tmpdir=" + jtmp, "-cp", "/opt/veriftools/tla/tla2tools.jar:/opt/veriftools/tla/CommunityModules-deps.jar",
+                            "tla2sany.SANY", module + ".tla"], cwd=spec_dir, stdout=subprocess.PIPE,
+                           stderr=subprocess.STDOUT, text=True, timeout=120)
+    finally:
+        shutil.rmtree(jtmp, ignore_errors=True)
     if p.returncode != 0 or "Semantic errors" in p.stdout or "Parse Error" in p.stdout or "*** Errors" in p.stdout:
         raise TLCError("SANY rejects %s:\n%s" % (module, p.stdout[-2000:]))
 
